@@ -538,6 +538,19 @@ def run_property(prop, tier, replay_file=None, only=None, jobs=None, keep=False)
     budget = {"timeout": 150 if tier == "quick" else 900, "mem_gb": 8 if tier == "quick" else 16}
     seed = int(os.environ.get("VERIF_SEED", "0") or 0)
     jobs = jobs or int(os.environ.get("VX_JOBS", "14"))
+    # supporting static facts (mutator-closure census, prelude/enum agreement): a broken fact => undecided
+    static_facts, static_bad = [], []
+    if not only:
+        for fact in spec.get("STATIC", []):
+            try:
+                ok, msg = fact()
+            except L.LiftError as e:
+                ok, msg = False, "static fact %s: %s" % (getattr(fact, "fact_name", "?"), e)
+            static_facts.append({"fact": getattr(fact, "fact_name", "?"), "holds": bool(ok), "detail": msg})
+            if not ok:
+                static_bad.append(msg)
+    meta = dict(meta)
+    meta["static_facts"] = static_facts
     results = []
     with cf.ThreadPoolExecutor(max_workers=jobs) as ex:
         futs = {ex.submit(verify_unit, u, prop, specdir, outroot, tier, budget): u for u in units}
@@ -601,6 +614,10 @@ def run_property(prop, tier, replay_file=None, only=None, jobs=None, keep=False)
         vio_records.append({"unit": u.name, "obligations": [fr["obligation"] + ": " + fr["description"] for fr in r["failed"]],
                             "replay": path, "reproduced": reproduced})
         exit_code = 1
+    for msg in static_bad:
+        print("UNDECIDED property=%s static-fact %s" % (prop, msg[:400]))
+    if exit_code == 0 and static_bad:
+        exit_code = 2
     if exit_code == 0 and undecided:
         exit_code = 2
         for u, r in undecided:
@@ -675,6 +692,7 @@ def write_evidence(prop, tier, seed, results, meta, vio, known_hits, undecided, 
             "extraction_drops": meta.get("extraction_drops", EXTRACTION_DROPS),
             "explanation": meta.get("explanation", ""),
             "not_decided": meta.get("not_decided", []),
+            "static_facts": meta.get("static_facts", []),
             "known_findings_reported": sorted({k["text"] for (_, _, k) in known_hits}),
             "known_finding_obligations_not_discharged": kf_obl,
             "undecided_units": [{"unit": u.name, "reason": r["reason"][:300]} for u, r in undecided],
